@@ -31,13 +31,24 @@ Where the code still deviates from the property (findings, each with a counterex
   its n−1 siblings are lost (`one_response_per_expanded_query_partial`, `answer_is_itemwise_partial`,
   `sibling_responses_lost_counterexample`); repairing it needs `json_array_op` to return several results
   (an API change);
+* `pipeline/invariant-error-loses-request` — a (user-defined) plugin that leaves a non-object among the
+  expanded queries gets the whole query answered with one invariant error whose request is the placeholder
+  (`invariant_breaker_loses_request_counterexample`);
 * the prediction cache is the one piece of shared mutable state: transparent iff no two inputs with different
   predictions share a rounded key (`cache_transparent`, `cache_collision_counterexample`; the collision on the
   real record is C08's finding `predict/cache-rounding-collision`).
 
+Plugin configurations include user-defined plugins (`Plugin.userSplit`, `userFailOn`, `userBreaker`; the harness
+pushes real implementations of them into `CompassApp.input_plugins`): a plugin that expands only SOME of the
+queries leaves a state that mixes plain queries and nested arrays, which is de-nested element by element
+(`flatten_denests_mixed_states`, `plugin_step_concatenates`).
+
 The theorems about answering and echoing take the hypothesis that every plugin maps an object to an object or
-a non-empty array of objects (`ObjOp`): proved for grid search, inject and the load balancer
-(`builtin_plugins_keep_objects`); for a recorded table plugin it is a property of the recorded data (true of
+a non-empty array of objects (`ObjOp`): proved for grid search, inject, the load balancer and the user-defined
+split / fail-on-marker plugins of the harness (`builtin_plugins_keep_objects`,
+`user_split_and_fail_keep_objects`), false of the user-defined invariant breaker
+(`user_breaker_does_not_keep_objects`, `invariant_breaker_loses_request_counterexample`); for a recorded table
+plugin it is a property of the recorded data (true of
 the r-tree matchers and the haversine load balancer, which only insert fields).
 
 Not a finding (configuration, outside the quantifier `parallelism 1..#cores`): parallelism 0 makes
@@ -219,8 +230,23 @@ theorem error_response_shape (plugins : List Plugin) (q e : Json) (h : prepT plu
 
 /-- grid search, inject (both modes) and the load balancer map an object to an object or to a non-empty array
 of objects -/
-theorem builtin_plugins_keep_objects (p : Plugin) (hp : ∀ t, p ≠ .table t) : ObjOp (processT p) :=
+theorem builtin_plugins_keep_objects (p : Plugin) (hp : p.wellBehaved = true) : ObjOp (processT p) :=
   processT_objOp p hp
+
+/-- … and so do the user-defined split plugin (a query with a non-empty `alts` array becomes its children, any
+other query is left alone) and the user-defined plugin that fails on a marker key -/
+theorem user_split_and_fail_keep_objects (key : String) :
+    ObjOp (processT (.userSplit key)) ∧ ObjOp (processT (.userFailOn key)) :=
+  ⟨processT_objOp _ rfl, processT_objOp _ rfl⟩
+
+/-- the hypothesis is not empty talk: the user-defined invariant breaker does **not** satisfy it (a scalar, an
+empty array, an array nested two levels deep) -/
+theorem user_breaker_does_not_keep_objects (key : String) : ¬ ObjOp (processT (.userBreaker key)) := by
+  intro h
+  have := h (.obj [(key, .str "scalar")]) seven rfl (by simp [processT, userT, Json.get?, Json.lookup])
+  rcases this with h1 | ⟨xs, h1, _⟩
+  · simp [seven, Json.isObject] at h1
+  · simp [seven] at h1
 
 /-- **A query that is not a JSON object is answered with an error response that echoes it**, whatever the
 plugins (fix 6b89952; it used to be answered with the placeholder request, an array was split into several
@@ -317,6 +343,54 @@ theorem response_carries_request (plugins : List Plugin) (respond : Json → Jso
 example (respond : Json → Json) : answer [.gridSearch] respond (.arr [])
     = [.obj [("request", .arr []), ("error", .str "UnexpectedQueryStructure")]] :=
   (non_object_query_echoed _ respond _ rfl).2
+
+/-! ### mixed query states, and plugins that break the invariant -/
+
+/-- **A query state that mixes plain queries and nested arrays is de-nested element by element**
+(`json_array_flatten_in_place`): `[a, [b₁, b₂], c]` becomes `[a, b₁, b₂, c]`.  This is the state a plugin
+leaves that expands only SOME of the queries an earlier plugin produced. -/
+theorem flatten_denests_mixed_states {ε : Type} (rs : List Json) :
+    (GridSearch.flattenInPlace (.arr rs) : Except (GridSearch.PipeErr ε) Json)
+      = .ok (.arr (rs.flatMap expand1)) :=
+  flattenInPlace_arr rs
+
+/-- every plugin step: the new state is the concatenation, in order, of what each query became (its children
+if it became an array, itself otherwise) -/
+theorem plugin_step_concatenates {ε : Type} (op : Json → Except ε Json) (items rs : List Json)
+    (h : GridSearch.mapOp op items = .ok rs) :
+    GridSearch.jsonArrayOp op (.arr items) = .ok (.arr (rs.flatMap expand1)) := by
+  simp [GridSearch.jsonArrayOp, h, flattenInPlace_arr]
+
+def mixQuery : Json :=
+  .obj [("o", .num "0" 0),
+        ("alts", .arr [.obj [("n", .str "a")],
+                       .obj [("n", .str "b"), ("more", .arr [.obj [("d", .num "1" 0)], .obj [("d", .num "2" 0)]])],
+                       .obj [("n", .str "c")]])]
+
+-- non-vacuity: a first split makes three children, the second split expands only the middle one — a mixed
+-- state `[a, [b₁, b₂], c]` — and all four expanded queries are answered, in order
+example (respond : Json → Json) :
+    answer [.userSplit "alts", .userSplit "more"] respond mixQuery
+      = [respond (.obj [("o", .num "0" 0), ("n", .str "a")]),
+         respond (.obj [("o", .num "0" 0), ("n", .str "b"), ("d", .num "1" 0)]),
+         respond (.obj [("o", .num "0" 0), ("n", .str "b"), ("d", .num "2" 0)]),
+         respond (.obj [("o", .num "0" 0), ("n", .str "c")])] := by
+  rfl
+
+/- Full statement (false of the code for plugins that break the invariant): every error response echoes the
+request (`error_echoes_request` proves it for `ObjOp` plugins). -/
+
+/-- **Finding `pipeline/invariant-error-loses-request`**: when a (user-defined) plugin leaves something that
+is not an object — here the scalar `7` — the final `json_array_flatten` answers the whole query with
+`package_invariant_error(None, …)`: the request is the placeholder, and a sibling that was fine is lost with
+it -/
+theorem invariant_breaker_loses_request_counterexample (respond : Json → Json) :
+    answer [.userBreaker "break"] respond (.obj [("break", .str "scalar")])
+      = [.obj [("request", noRequest), ("error", .str invariantKind)]] ∧
+    answer [.userSplit "alts", .userBreaker "break"] respond
+        (.obj [("alts", .arr [.obj [("break", .str "scalar")], .obj [("fine", .null)]])])
+      = [.obj [("request", noRequest), ("error", .str invariantKind)]] := by
+  exact ⟨by rfl, by rfl⟩
 
 /-! ### one response per expanded query -/
 
